@@ -29,6 +29,7 @@ import (
 	"sync"
 
 	networking "k8s.io/api/networking/v1"
+	k8svalidation "k8s.io/apimachinery/pkg/util/validation"
 
 	"github.com/nginx/kubernetes-ingress/internal/configs"
 	"github.com/nginx/kubernetes-ingress/internal/configs/version1"
@@ -790,19 +791,18 @@ var regexSamples = map[string][]string{
 	"realm": {"", "My Realm", "a\\\"b"}, "jwt_token": {"$http_token", "$a\\b"}, "return_type": {"text/plain", "a\\;b"},
 	"grpc_service": {"", "my.Service"}, "ts_hash": {"hash x", "hash ${remote_addr} consistent"}, "size": {"10", "8k"}, "offset": {"10", "2g"},
 	"rate": {"10r/s", "1r/M"}, "proxy_buffers": {"4 8k"}, "time": {"30s", "1h 30m", "5ms"},
+	"limit_req_key": {"${binary_remote_addr}", "$a", "a${b_1}c$d"}, "ing_rate": {"10r/s", "7r/m"}, "http_header_name": {"X-Api-Key", "a"},
 }
 
 func regexRecords() []RegexRec {
-	all := map[string]*regexp.Regexp{}
-	for k, v := range validation.VerifC06Regexps() {
-		all[k] = v
+	all := map[string]func(string) bool{}
+	for _, m := range []map[string]*regexp.Regexp{validation.VerifC06Regexps(), configs.VerifC06Regexps(), k8s.VerifC06Regexps()} {
+		for k, v := range m {
+			all[k] = v.MatchString
+		}
 	}
-	for k, v := range configs.VerifC06Regexps() {
-		all[k] = v
-	}
-	for k, v := range k8s.VerifC06Regexps() {
-		all[k] = v
-	}
+	// the header-name expression lives (unexported) in k8s.io/apimachinery; IsHTTPHeaderName is its only use
+	all["http_header_name@apimachinery.IsHTTPHeaderName"] = func(s string) bool { return len(k8svalidation.IsHTTPHeaderName(s)) == 0 }
 	var keys []string
 	for k := range all {
 		keys = append(keys, k)
@@ -812,9 +812,9 @@ func regexRecords() []RegexRec {
 	for _, k := range keys {
 		parts := strings.SplitN(k, "@", 2)
 		r := RegexRec{Rec: "regex", Name: parts[0], Source: parts[1]}
-		re := all[k]
+		match := all[k]
 		for _, smp := range regexSamples[parts[0]] {
-			if !re.MatchString(smp) {
+			if !match(smp) {
 				continue
 			}
 			for mode := 0; mode < 2; mode++ {
@@ -825,7 +825,7 @@ func regexRecords() []RegexRec {
 					bits := make([]byte, 256)
 					for c := 0; c < 256; c++ {
 						t := smp[:pos] + string([]byte{byte(c)}) + smp[pos+mode:]
-						if re.MatchString(t) {
+						if match(t) {
 							bits[c] = '1'
 						} else {
 							bits[c] = '0'
